@@ -1,18 +1,18 @@
 SPECIFICATION Spec
 CONSTANTS
   Threads = {t1}
-  MaxPush = 20
-  MaxPop = 20
+  MaxPush = 4
+  MaxPop = 4
   MaxUnblock = 1
   MaxSize = 0
-  Void = TRUE
-  AllowDestroy = FALSE
-  AllowThrow = FALSE
-  Obj = FALSE
-  Forms = {"zero"}
-  SingleItem = FALSE
-  SingleWaiter = FALSE
-  MaxRefuse = 0
+  Void = FALSE
+  AllowDestroy = TRUE
+  AllowThrow = TRUE
+  Obj = TRUE
+  Forms = {"one", "two", "zero", "copy", "cref", "move"}
+  SingleItem = TRUE
+  SingleWaiter = TRUE
+  MaxRefuse = 1
 INVARIANTS TypeOK NeverBothNonEmpty SlotCapacity ExactlyOnceDelivery ValueIntact DeliveredInOrder ItemsSorted WaitersFIFO NoLostWaiter DestroyCancels
 PROPERTY AllResolved
 CHECK_DEADLOCK FALSE
